@@ -277,7 +277,9 @@ pub fn gen(rng: &mut Rng) -> Scn {
     let clone_warmup_ms = if mode == 0 && rng.chance(1, 5) { *rng.pick(&[1u64, 5, 20]) } else { 0 };
     let primed_template = mode == 0 && rng.chance(1, 4);
     let alt = rng.chance(1, 3);
-    let reentrant = mode == 3 && rng.chance(1, 3);
+    // (extra traffic from a listener changes what a breaker that really opens, a retry that
+    // really retries ... will do next: only configurations that stay passive)
+    let reentrant = mode == 3 && !triggering && rng.chance(1, 3);
     let dup_keys = reentrant && stack.contains(&L::Cache);
     Scn { stack, mode, triggering, ready_script, pressure, zero_backoff, clone_warmup_ms, primed_template, alt, reentrant, dup_keys, reqs, knobs }
 }
@@ -298,7 +300,7 @@ pub fn valid(s: &Scn) -> bool {
         && s.ready_script.len() <= 8
         && s.ready_script.iter().all(|x| *x <= 2)
         && (s.mode == 0 || s.ready_script.is_empty())
-        && (!s.reentrant || s.mode == 3)
+        && (!s.reentrant || (s.mode == 3 && !s.triggering))
         && (!s.dup_keys || s.reentrant)
         && s.knobs.jumps.is_empty()
 }
